@@ -229,6 +229,29 @@ def job_2d(NX, NY, jx, cx, jy, cy, bilinear):
         res += divisor_obligations('%s/p%d' % (tag, pi), q.st, model_vars=mv, key='C01/2d/division-by-zero')
     return res
 
+def job_located(N, jLast, corr):
+    """larger tables: from every cache state Interpolate returns prefactor * cubic of a segment that contains x (or the 1% zone) -- the part of the eval obligations that depends on the index search"""
+    mod = GMOD['m']; L = GMOD['L']; res = []; tag = 'located/N%d/j%d/c%d' % (N, jLast, corr); x = z3.Real('x')
+    it = Interp(mod); st = it.new_state(); o = mkobj(it, st, L, N, jLast, corr); st.pc += o.order
+    mv = {'xs': o.xs, 'ys': o.ys, 'a': o.a, 'b': o.b, 'c': o.c, 'd': o.d, 'pref': o.pref, 'x': x, 'N': N, 'jLast': jLast, 'corr': corr}
+    c01 = RV(1e-2); tol_l = c01 * (o.xs[1] - o.xs[0]); tol_r = c01 * (o.xs[N - 1] - o.xs[N - 2])
+    for pi, p in enumerate(it.execute('@verif_c01_eval', [o.addr, x], st)):
+        if p.end is not None:
+            if p.end.kind != 'exit': res.append(prove('%s/no-%s[%d]' % (tag, p.end.kind, pi), p.st.pc, z3.BoolVal(False), 10000, mv, key='C01/eval/' + p.end.kind, detail=str(p.end)))
+            continue
+        v = toR(p.ret); j = None
+        for jj in range(N - 1):
+            if v.eq(o.pref * cubic(o, jj, x)): j = jj; break
+        if j is None:
+            for jj in range(N - 1):
+                so = z3.Solver(); so.set('timeout', 5000); so.add(*p.st.pc); so.add(v != o.pref * cubic(o, jj, x))
+                if so.check() == z3.unsat: j = jj; break
+        if j is None: res.append(prove('%s/cubic-form[%d]' % (tag, pi), p.st.pc, z3.BoolVal(False), 10000, mv, key='C01/eval/cubic-form', detail='returned term is no segment cubic')); continue
+        inseg = z3.And(o.xs[j] <= x, x <= o.xs[j + 1])
+        zone = z3.Or(z3.And(j == 0, x < o.xs[0], o.xs[0] - x < tol_l), z3.And(j == N - 2, x > o.xs[N - 1], x - o.xs[N - 1] < tol_r))
+        res.append(prove('%s/located[%d,seg%d]' % (tag, pi, j), p.st.pc, z3.Or(inseg, zone), 10000, mv, key='C01/eval/located'))
+    return res
+
 def jobs(ctx):
     mod = module(ctx); GMOD['L'] = layout(mod)
     b = BOUNDS[ctx.tier]; J = []
@@ -240,6 +263,9 @@ def jobs(ctx):
     for N in b['N_eval']:
         for jl in range(N - 1):
             for corr in (0, 1): J.append((job_eval, (N, jl, corr)))
+    for N in range(max(b['N_eval']) + 1, 13 if ctx.quick() else 25):
+        for jl in range(N - 1):
+            for corr in (0, 1): J.append((job_located, (N, jl, corr)))
     for (nx, ny) in b['grids']:
         for jx in range(nx - 1):
             for jy in range(ny - 1):
@@ -317,6 +343,11 @@ def replay(ctx, o):
         return (worst > 1e-9), 'native constructor, worst relative invariant violation %.3g (%s) on xs=%s ys=%s' % (worst, what, xs, ys)
     if key.startswith('C01/eval') or key.startswith('C01/deriv'):
         ys = _tab(m, 'ys'); A, B, C, D = [_tab(m, k) for k in 'abcd']; x = q2f(m['x']); pref = q2f(m['pref'])
+        if key in ('C01/eval/located', 'C01/deriv/located'):
+            r = nat.call(so, 'verif_c01_raw', [('u32', N), ('dbl[]', xs), ('dbl[]', ys), ('dbl[]', A), ('dbl[]', B), ('dbl[]', C), ('dbl[]', D), pref, ('u32', m['jLast']), ('i32', m['corr']), ('i32', 20), x, 0.0])
+            if r['status'] != 'ok': return xs[0] <= x <= xs[-1], 'native Locate(%r) ended: %s' % (x, r['status'])
+            j = int(r['ret']); ok = 0 <= j <= N - 2 and (xs[j] <= x <= xs[j + 1] or (j == 0 and x < xs[0]) or (j == N - 2 and x > xs[-1]))
+            return (not ok), 'native Locate(%r) from cache state (jLast=%d, correlated=%d) on xs=%s returned %d' % (x, m['jLast'], m['corr'], xs, j)
         opn = 0
         if 'deriv' in name: opn = int(name.split('deriv')[1][0]) or 5
         if 'monotone' in name: opn = 1
